@@ -71,6 +71,15 @@ func (c *Cluster) byzForgeStep(s *Step) {
 		if vi != max {
 			return
 		}
+		// ... nor on top of anything but the last event it created itself (a
+		// victim killed in the middle of the insertion hides that event from the
+		// harness's record of the DAG; building a second event at the same height
+		// would be an equivocation of the harness's making)
+		if c.byzLast != nil && f.ev.SelfParent() != c.byzLast.Hex() {
+			c.stats.probe("forger-waits-for-its-last-event-to-be-known")
+			return
+		}
+		c.byzLast = f.ev
 	}
 	c.stats.probe("c07-attempt:" + op)
 	if f.decorated {
@@ -619,6 +628,11 @@ func (c *Cluster) byzSigStep(s *Step) {
 	if spIdx != max {
 		return
 	}
+	if c.byzLast != nil && sp != c.byzLast.Hex() {
+		// (see byzForgeStep: never a second event at a height it already used)
+		c.stats.probe("forger-waits-for-its-last-event-to-be-known")
+		return
+	}
 	r := c.inner
 	op := sigForgeOps[s.N%len(sigForgeOps)]
 	store := victim.core().Hashgraph().Store
@@ -708,6 +722,7 @@ func (c *Cluster) byzSigStep(s *Step) {
 	other := c.someEventAt(victim, r)
 	ev := newEvent(byz, spIdx+1, sp, other, nil, nil, sigs, int64(946684800+c.stepNo))
 	signEvent(ev, byz)
+	c.byzLast = ev
 	c.stats.probe("c09-hostile-signatures:" + op)
 	c.hostile, c.hostileSeen = true, true
 	if s.B == 1 {
